@@ -96,7 +96,7 @@ ID_OK = ["\u00e9", "na\u00efve", "\u03c0", "\u540d\u524d", "\u00df1", "_\u00e9",
 
 
 # ---- adjacent string-literal pieces (implicit concatenation): every ordered pair / triple of kinds ----------------
-CONCAT_PIECES_PY = ["'a'", "b'b'", "f'{a}'", "f'{a}t'", "f't{a}'", "f't'", "u'u'", "r'\\d'", "rb'x'", "''", "f''", "b''", '"""m\nn"""', "f'''{a}\nk'''"]
+CONCAT_PIECES_PY = ["'a'", "U'v'", "b'b'", "f'{a}'", "f'{a}t'", "f't{a}'", "f't'", "u'u'", "r'\\d'", "rb'x'", "''", "f''", "b''", '"""m\nn"""', "f'''{a}\nk'''"]
 CONCAT_PIECES_XONSH = ["p'p'", "pf'{a}'", "pr'q'", "pf't{a}t'"]
 
 
